@@ -218,6 +218,8 @@ type Layout struct {
 	EmptyAnn    int    `json:"empty_ann"`    // elements without rules and note get an empty annotation at the line end: 1 `//`, 2 `// ` + blanks, 3 `/**/`, 4 `/* */`
 	ColonTab    bool   `json:"colon_tab"`    // a TAB between a rule name and its colon, a TAB behind the colon
 	EmptyHash   int    `json:"empty_hash"`   // line-end user comments without text: 1 `#` directly before the line break, 2 `#` and blanks
+	CloseTight  bool   `json:"close_tight"`  // no blank between the body of a /* */ annotation and its closing */
+	HashGlue    bool   `json:"hash_glue"`    // line-end user comments start directly behind the last byte of the line, without a blank
 	NoteBelow   bool   `json:"note_below"`   // an annotation that is only a note stands on a line of its own below its one-line element (last member / item, or the root)
 }
 
@@ -255,6 +257,8 @@ func RandLayout(rng *rand.Rand) Layout {
 		EmptyAnn:    []int{0, 0, 0, 0, 0, 0, 1, 2, 3, 4}[rng.IntN(10)],
 		ColonTab:    rng.IntN(8) == 0,
 		EmptyHash:   []int{0, 0, 0, 0, 0, 0, 0, 1, 1, 2}[rng.IntN(10)],
+		CloseTight:  rng.IntN(6) == 0,
+		HashGlue:    rng.IntN(8) == 0,
 	}
 	return l
 }
@@ -309,7 +313,7 @@ func (p *printer) lineEndComment() {
 	if p.l.EmptyHash != 0 {
 		p.comment++
 		if p.comment%2 == 1 {
-			p.sb.WriteString([]string{" #", " # \t "}[(p.l.EmptyHash-1)%2])
+			p.sb.WriteString(p.hashLead() + []string{"#", "# \t "}[(p.l.EmptyHash-1)%2])
 		}
 		return
 	}
@@ -318,8 +322,16 @@ func (p *printer) lineEndComment() {
 	}
 	p.comment++
 	if p.comment%3 == 0 {
-		p.sb.WriteString(" # c" + string(rune('a'+p.comment%26)))
+		p.sb.WriteString(p.hashLead() + "# c" + string(rune('a'+p.comment%26)))
 	}
+}
+
+// hashLead is what stands between the line and a line-end user comment.
+func (p *printer) hashLead() string {
+	if p.l.HashGlue {
+		return ""
+	}
+	return " "
 }
 
 // blockComment may add a ### block on lines of its own (between members).
@@ -463,7 +475,11 @@ func (p *printer) annotation(n *Node, level int) {
 	}
 	gap := []string{" ", "", "\t", "  ", " \t"}[p.l.OpenGap%5]
 	if p.l.Multi {
-		p.sb.WriteString("/*" + gap + body + " */")
+		closer := " */"
+		if p.l.CloseTight && !strings.HasSuffix(body, "/") {
+			closer = "*/"
+		}
+		p.sb.WriteString("/*" + gap + body + closer)
 	} else {
 		p.sb.WriteString("//" + gap + body)
 	}
